@@ -12,6 +12,8 @@ def gen(run):
     for ci in range(n):
         fn = rng.choice(names)
         age = rng.choice([1, 2, 24, 168, 596, 597, 600, 719, 720, rng.randint(1, 720)])
+        if ci % 12 == 11:   # "keep (almost) forever": ages up to what the configuration type (int32 hours) admits, around the point where hours no longer fit a time.Duration
+            age = rng.choice([8760, 87600, 876000, 2562047, 2562048, 2562049, 3000000, 5124095, 5124096, 10 ** 7, 2 ** 31 - 1, rng.randint(721, 2 ** 31 - 1)])
         cut = -age * 3600
         ents = {}
 
@@ -21,6 +23,11 @@ def gen(run):
 
         def off():
             # both sides of the cut-off, never within 120 s of it
+            if age > 720:   # modification times the file system can hold (back to 1970); for ages up to 100 years both sides of the cut-off
+                cands = [-1, -30, -3600, -86400 * 365, -86400 * 365 * 30, -(10 ** 9)]
+                if -cut < 1.7 * 10 ** 9:
+                    cands += [cut - 121, cut - 86400, cut + 121, cut + 86400]
+                return rng.choice([c for c in cands if c > -1.75 * 10 ** 9 and abs(c - cut) >= 121])
             k = rng.random()
             if k < 0.45:
                 return cut - rng.choice([121, 3600, 86400, 10 ** 6, 3 * 10 ** 7])
@@ -105,11 +112,11 @@ def check(run):
             return 'harness error'
         mo, io = common.read_lines_keep(tmp + '/m'), common.read_lines_keep(tmp + '/i')
         common.compare_stage(run, 'c14/survivors', cases, mo, io, nontrivial_fn=nontrivial,
-                             rule='directory populations (own / sibling / prefix-sharing / unrelated names, files, dirs, symlinks, mtimes on both sides of the cut-off, maxAge 1..720); a third of the cases are histories of 2-4 passes of ONE appender with files re-timed / written again / created between the passes, some with real waits so that the age of a file crosses the cut-off between two passes; observable = sorted survivors; non-trivial = at least one entry deleted and one kept')
+                             rule='directory populations (own / sibling / prefix-sharing / unrelated names, files, dirs, symlinks, mtimes on both sides of the cut-off, maxAge 1..720 and, in every twelfth case, up to 2^31-1 h across the point (2562047 h) where hours stop fitting a time.Duration); a third of the cases are histories of 2-4 passes of ONE appender with files re-timed / written again / created between the passes, some with real waits so that the age of a file crosses the cut-off between two passes; observable = sorted survivors; non-trivial = at least one entry deleted and one kept')
         ages = {}
         for c in cases:
             a = int(c.split()[1]); ages[a] = ages.get(a, 0) + 1
-        run.coverage['distribution'] = {'max_age_ge_597': sum(v for k, v in ages.items() if k >= 597), 'cases': len(cases), 'multi_pass_histories': sum(1 for c in cases if '|' in c), 'histories_with_waits': sum(1 for c in cases if '|6' in c)}
+        run.coverage['distribution'] = {'max_age_ge_597': sum(v for k, v in ages.items() if k >= 597), 'max_age_beyond_duration': sum(v for k, v in ages.items() if k > 2562047), 'cases': len(cases), 'multi_pass_histories': sum(1 for c in cases if '|' in c), 'histories_with_waits': sum(1 for c in cases if '|6' in c)}
     finally:
         shutil.rmtree(tmp, ignore_errors=True)
     return 'generated directory populations run through the real clearExpiredFiles (hook VerifClearExpired) and the verified model; see streams'
